@@ -165,6 +165,32 @@ def _data_job(job):
     return problems
 
 
+def midnight_texts(report, folder):
+    """
+    Text cells that look like a date with a time, under a date-only and under a date-and-time DateTime field: the verdicts are
+    the same for all storages. (A native Excel date cell reads as 'YYYY-MM-DD 00:00:00' -- C16; for those the Excel format
+    drops the midnight before a date-only field sees it. Known finding D60: it does so for plain text cells too.)
+    """
+    import cutplace
+    table = [["1", "2020-02-01"], ["2", "2020-02-02 00:00:00"], ["3", "2020-02-03 00:00:01"], ["4", "2020-02-04 00:00:00 00:00:00"]]
+    for rule, want in (("YYYY-MM-DD", ["ok", "bad", "bad", "bad"]), ("YYYY-MM-DD hh:mm:ss", ["bad", "ok", "ok", "bad"])):
+        for storage, fmt, suffix in (("csv", "delimited", ".csv"), ("ods", "ods", ".ods"), ("xlsx", "excel", ".xlsx")):
+            cid = cutplace.Cid()
+            cid.read("cid", [["D", "Format", fmt]] + ([["D", "Encoding", "utf-8"]] if fmt == "delimited" else []) + [
+                ["F", "rid"], ["F", "day", "", "", "", "DateTime", rule]])
+            path = os.path.join(folder, "midnight" + suffix)
+            write_table(path, storage, table)
+            report.replayed += 1
+            got = ["bad" if isinstance(item, Exception) else "ok" for item in cutplace.rows(cid, path, on_error="yield")]
+            if got != want:
+                # the deviation as recorded: exactly the text with one midnight suffix is accepted by the date-only Excel field
+                pinned = rule == "YYYY-MM-DD" and storage == "xlsx" and got == ["ok", "ok", "bad", "bad"]
+                report.violation("c17", {"table": table, "rule": rule, "storage": storage}, want, got,
+                                 "DateTime field %r, text cells %r stored as %s: verdicts are %s but must be %s as for the other "
+                                 "storages" % (rule, [row[1] for row in table], storage, got, want),
+                                 signature="excel-midnight-text" if pinned else None)
+
+
 def replay(behaviour, report=None):
     core.import_repo()
     folder = core.workdir("c17replay")
@@ -220,6 +246,7 @@ def run(tier, report):
             stored = dict(vec)
             stored["index"] = index
             record(stored, problems)
+        midnight_texts(report, folder)
         if not report.violations and tables:
             corrupted = core.json.loads(core.json.dumps(tables[0]))
             out = corrupted["hist"][0]["fresh"]["out"]
